@@ -71,4 +71,382 @@ theorem partial_cmp_MAX' {t : TwoFloat} (hw : t.WF) (hv : t.Valid) :
   generalize base.impl_PartialOrd_TwoFloat_for_TwoFloat.partial_cmp t TwoFloat.MIN = q at h
   rcases p with _ | (_ | _ | _) <;> rcases q with _ | (_ | _ | _) <;> simp [ROrd.isLe, ROrd.isGe] at h ⊢
 
+/-! ## 2. the algebraic constants are correctly rounded (pure integer arithmetic)
+
+Units: a double `x` is the integer `x.toInt` in units of `2^-1074`; put `U = 2^1074`.  The real number `√2` is
+`√2·U` in these units, and `(√2·U)² = 2·U² = 2^2149`.  With `H = SQRT_2.hi.toInt` and `u = ulp(H) = 2^1022` (the
+spacing of the doubles around `H`; `H` is not a power of two, so its neighbours are `H ± u`), `H = RN(√2)` means
+that `√2·U` lies in the cell `[H − u/2, H + u/2]`; since `√2` is irrational it cannot be an end point (a tie), so
+this is `2H − u < 2·√2·U < 2H + u`, i.e. (all quantities positive) `(2H − u)² < 4·2^2149 = 8U² < (2H + u)²` —
+an inequality between explicit integers that the kernel evaluates.  The same with `H + L`, `v = ulp(L)` in place
+of `H`, `u` says `2(H+L) − v < 2√2·U < 2(H+L) + v`, i.e. `√2·U − H` lies in the cell of `L`: `L = RN(√2 − hi)`. -/
+
+/-- the four integer inequalities for `√2`, in the form given in the task description (`U = 2^1074`) -/
+theorem SQRT_2_cells_int :
+    let H := consts.SQRT_2.hi.toInt
+    let L := consts.SQRT_2.lo.toInt
+    let U : ℤ := 2 ^ 1074
+    ((2 * H - 2 ^ 1022) ^ 2 < 8 * U ^ 2 ∧ 8 * U ^ 2 < (2 * H + 2 ^ 1022) ^ 2) ∧
+    ((2 * (H + L) - 2 ^ 968) ^ 2 < 8 * U ^ 2 ∧ 8 * U ^ 2 < (2 * (H + L) + 2 ^ 968) ^ 2) := by
+  decide +kernel
+
+/-- `SQRT_2.hi = RN(√2)`: `√2` lies strictly inside the rounding cell of the high word -/
+theorem SQRT_2_hi_correctly_rounded : InCell (√2 * 2 ^ 1074) consts.SQRT_2.hi.toInt := by
+  rw [sqrt_two_scaled]
+  have := inCell_sqrt (N := 2 ^ 2149) (A := 0) (L := consts.SQRT_2.hi.toInt) (u := 2 ^ 1022)
+    (by decide +kernel) (by decide +kernel) (by decide +kernel) (by decide +kernel) (by decide +kernel)
+  simpa using this
+
+/-- `SQRT_2.lo = RN(√2 − SQRT_2.hi)`: `√2 − hi` lies strictly inside the rounding cell of the low word -/
+theorem SQRT_2_lo_correctly_rounded :
+    InCell (√2 * 2 ^ 1074 - (consts.SQRT_2.hi.toInt : ℝ)) consts.SQRT_2.lo.toInt := by
+  rw [sqrt_two_scaled]
+  exact inCell_sqrt (N := 2 ^ 2149) (A := consts.SQRT_2.hi.toInt) (L := consts.SQRT_2.lo.toInt) (u := 2 ^ 968)
+    (by decide +kernel) (by decide +kernel) (by decide +kernel) (by decide +kernel) (by decide +kernel)
+
+/-- `consts::SQRT_2` is the correctly rounded double-double of `√2` -/
+theorem SQRT_2_correctly_rounded : CorrectlyRoundedDD √2 consts.SQRT_2 :=
+  ⟨SQRT_2_hi_correctly_rounded, SQRT_2_lo_correctly_rounded⟩
+
+/-- hence `|√2 − (hi + lo)| ≤ 2^-107·√2` -/
+theorem SQRT_2_rel_err : |√2 - (consts.SQRT_2.V : ℝ) / 2 ^ 1074| ≤ |√2| / 2 ^ 107 :=
+  SQRT_2_correctly_rounded.rel_err' (by decide +kernel)
+
+/-- the four integer inequalities for `1/√2`: `(U/√2)² = U²/2 = 2^2147`, so `2·(U/√2)` squared is `2·U²` -/
+theorem FRAC_1_SQRT_2_cells_int :
+    let H := consts.FRAC_1_SQRT_2.hi.toInt
+    let L := consts.FRAC_1_SQRT_2.lo.toInt
+    let U : ℤ := 2 ^ 1074
+    ((2 * H - 2 ^ 1021) ^ 2 < 2 * U ^ 2 ∧ 2 * U ^ 2 < (2 * H + 2 ^ 1021) ^ 2) ∧
+    ((2 * (H + L) - 2 ^ 967) ^ 2 < 2 * U ^ 2 ∧ 2 * U ^ 2 < (2 * (H + L) + 2 ^ 967) ^ 2) := by
+  decide +kernel
+
+/-- `FRAC_1_SQRT_2.hi = RN(1/√2)` -/
+theorem FRAC_1_SQRT_2_hi_correctly_rounded : InCell (1 / √2 * 2 ^ 1074) consts.FRAC_1_SQRT_2.hi.toInt := by
+  rw [inv_sqrt_two_scaled]
+  have := inCell_sqrt (N := 2 ^ 2147) (A := 0) (L := consts.FRAC_1_SQRT_2.hi.toInt) (u := 2 ^ 1021)
+    (by decide +kernel) (by decide +kernel) (by decide +kernel) (by decide +kernel) (by decide +kernel)
+  simpa using this
+
+/-- `FRAC_1_SQRT_2.lo = RN(1/√2 − FRAC_1_SQRT_2.hi)` -/
+theorem FRAC_1_SQRT_2_lo_correctly_rounded :
+    InCell (1 / √2 * 2 ^ 1074 - (consts.FRAC_1_SQRT_2.hi.toInt : ℝ)) consts.FRAC_1_SQRT_2.lo.toInt := by
+  rw [inv_sqrt_two_scaled]
+  exact inCell_sqrt (N := 2 ^ 2147) (A := consts.FRAC_1_SQRT_2.hi.toInt) (L := consts.FRAC_1_SQRT_2.lo.toInt)
+    (u := 2 ^ 967)
+    (by decide +kernel) (by decide +kernel) (by decide +kernel) (by decide +kernel) (by decide +kernel)
+
+theorem FRAC_1_SQRT_2_correctly_rounded : CorrectlyRoundedDD (1 / √2) consts.FRAC_1_SQRT_2 :=
+  ⟨FRAC_1_SQRT_2_hi_correctly_rounded, FRAC_1_SQRT_2_lo_correctly_rounded⟩
+
+theorem FRAC_1_SQRT_2_rel_err :
+    |1 / √2 - (consts.FRAC_1_SQRT_2.V : ℝ) / 2 ^ 1074| ≤ |1 / √2| / 2 ^ 107 :=
+  FRAC_1_SQRT_2_correctly_rounded.rel_err' (by decide +kernel)
+
+/-! ## 3. transcendental constants: enclosures proved in Lean (Mathlib real analysis), then the same cell test
+
+For each constant `c` a rational enclosure `n₁/d₁ ≤ c ≤ n₂/d₂` is *proved* (truncated series with an explicit
+remainder bound from Mathlib), and the kernel checks that the whole enclosure lies strictly inside the cell:
+`(2(A+L) − u)·d₁ < 2·n₁·2^1074` and `2·n₂·2^1074 < (2(A+L) + u)·d₂`. -/
+
+/-- `E.hi = RN(e)` -/
+theorem E_hi_correctly_rounded : InCell (Real.exp 1 * 2 ^ 1074) consts.E.hi.toInt :=
+  inCell_of_enclosure₀ (u := 2 ^ 1023) (by decide +kernel) (by decide +kernel) (by decide +kernel)
+    (by decide +kernel) exp_one_enclosure.1 exp_one_enclosure.2 (by decide +kernel) (by decide +kernel)
+
+/-- `E.lo = RN(e − E.hi)` -/
+theorem E_lo_correctly_rounded :
+    InCell (Real.exp 1 * 2 ^ 1074 - (consts.E.hi.toInt : ℝ)) consts.E.lo.toInt :=
+  inCell_of_enclosure (u := 2 ^ 969) (by decide +kernel) (by decide +kernel) (by decide +kernel)
+    (by decide +kernel) exp_one_enclosure.1 exp_one_enclosure.2 (by decide +kernel) (by decide +kernel)
+
+theorem E_correctly_rounded : CorrectlyRoundedDD (Real.exp 1) consts.E :=
+  ⟨E_hi_correctly_rounded, E_lo_correctly_rounded⟩
+
+theorem E_rel_err : |Real.exp 1 - (consts.E.V : ℝ) / 2 ^ 1074| ≤ |Real.exp 1| / 2 ^ 107 :=
+  E_correctly_rounded.rel_err' (by decide +kernel)
+
+/-- `consts::LN_2` is the correctly rounded double-double of `log 2` (series `Σ 2^-(i+1)/(i+1)`, 200 terms) -/
+theorem LN_2_correctly_rounded : CorrectlyRoundedDD (Real.log 2) consts.LN_2 :=
+  correctlyRounded_of_encl (u := 2 ^ 1021) (v := 2 ^ 966) log_two_encl
+    (by decide +kernel) (by decide +kernel) (by decide +kernel) (by decide +kernel)
+    (by decide +kernel) (by decide +kernel) (by decide +kernel) (by decide +kernel)
+
+theorem LN_2_hi_correctly_rounded : InCell (Real.log 2 * 2 ^ 1074) consts.LN_2.hi.toInt :=
+  LN_2_correctly_rounded.hi
+theorem LN_2_lo_correctly_rounded :
+    InCell (Real.log 2 * 2 ^ 1074 - (consts.LN_2.hi.toInt : ℝ)) consts.LN_2.lo.toInt :=
+  LN_2_correctly_rounded.lo
+
+theorem LN_2_rel_err : |Real.log 2 - (consts.LN_2.V : ℝ) / 2 ^ 1074| ≤ |Real.log 2| / 2 ^ 107 :=
+  LN_2_correctly_rounded.rel_err' (by decide +kernel)
+
+/-- `consts::LN_10` is the correctly rounded double-double of `log 10 = 3·log 2 + log (5/4)` -/
+theorem LN_10_correctly_rounded : CorrectlyRoundedDD (Real.log 10) consts.LN_10 :=
+  correctlyRounded_of_encl (u := 2 ^ 1023) (v := 2 ^ 969) log_ten_encl
+    (by decide +kernel) (by decide +kernel) (by decide +kernel) (by decide +kernel)
+    (by decide +kernel) (by decide +kernel) (by decide +kernel) (by decide +kernel)
+
+theorem LN_10_hi_correctly_rounded : InCell (Real.log 10 * 2 ^ 1074) consts.LN_10.hi.toInt :=
+  LN_10_correctly_rounded.hi
+theorem LN_10_lo_correctly_rounded :
+    InCell (Real.log 10 * 2 ^ 1074 - (consts.LN_10.hi.toInt : ℝ)) consts.LN_10.lo.toInt :=
+  LN_10_correctly_rounded.lo
+
+theorem LN_10_rel_err : |Real.log 10 - (consts.LN_10.V : ℝ) / 2 ^ 1074| ≤ |Real.log 10| / 2 ^ 107 :=
+  LN_10_correctly_rounded.rel_err' (by decide +kernel)
+
+/-- `consts::LOG2_E` is the correctly rounded double-double of `log₂ e = 1 / log 2` -/
+theorem LOG2_E_correctly_rounded : CorrectlyRoundedDD (Real.logb 2 (Real.exp 1)) consts.LOG2_E :=
+  correctlyRounded_of_encl (u := 2 ^ 1022) (v := 2 ^ 966) log2_e_encl
+    (by decide +kernel) (by decide +kernel) (by decide +kernel) (by decide +kernel)
+    (by decide +kernel) (by decide +kernel) (by decide +kernel) (by decide +kernel)
+
+theorem LOG2_E_hi_correctly_rounded : InCell (Real.logb 2 (Real.exp 1) * 2 ^ 1074) consts.LOG2_E.hi.toInt :=
+  LOG2_E_correctly_rounded.hi
+theorem LOG2_E_lo_correctly_rounded :
+    InCell (Real.logb 2 (Real.exp 1) * 2 ^ 1074 - (consts.LOG2_E.hi.toInt : ℝ)) consts.LOG2_E.lo.toInt :=
+  LOG2_E_correctly_rounded.lo
+
+theorem LOG2_E_rel_err : |Real.logb 2 (Real.exp 1) - (consts.LOG2_E.V : ℝ) / 2 ^ 1074| ≤ |Real.logb 2 (Real.exp 1)| / 2 ^ 107 :=
+  LOG2_E_correctly_rounded.rel_err' (by decide +kernel)
+
+/-- `consts::LOG10_E` is the correctly rounded double-double of `log₁₀ e = 1 / log 10` -/
+theorem LOG10_E_correctly_rounded : CorrectlyRoundedDD (Real.logb 10 (Real.exp 1)) consts.LOG10_E :=
+  correctlyRounded_of_encl (u := 2 ^ 1020) (v := 2 ^ 965) log10_e_encl
+    (by decide +kernel) (by decide +kernel) (by decide +kernel) (by decide +kernel)
+    (by decide +kernel) (by decide +kernel) (by decide +kernel) (by decide +kernel)
+
+theorem LOG10_E_hi_correctly_rounded : InCell (Real.logb 10 (Real.exp 1) * 2 ^ 1074) consts.LOG10_E.hi.toInt :=
+  LOG10_E_correctly_rounded.hi
+theorem LOG10_E_lo_correctly_rounded :
+    InCell (Real.logb 10 (Real.exp 1) * 2 ^ 1074 - (consts.LOG10_E.hi.toInt : ℝ)) consts.LOG10_E.lo.toInt :=
+  LOG10_E_correctly_rounded.lo
+
+theorem LOG10_E_rel_err : |Real.logb 10 (Real.exp 1) - (consts.LOG10_E.V : ℝ) / 2 ^ 1074| ≤ |Real.logb 10 (Real.exp 1)| / 2 ^ 107 :=
+  LOG10_E_correctly_rounded.rel_err' (by decide +kernel)
+
+/-- `consts::LOG10_2` is the correctly rounded double-double of `log₁₀ 2 = log 2 / log 10` -/
+theorem LOG10_2_correctly_rounded : CorrectlyRoundedDD (Real.logb 10 2) consts.LOG10_2 :=
+  correctlyRounded_of_encl (u := 2 ^ 1020) (v := 2 ^ 963) log10_2_encl
+    (by decide +kernel) (by decide +kernel) (by decide +kernel) (by decide +kernel)
+    (by decide +kernel) (by decide +kernel) (by decide +kernel) (by decide +kernel)
+
+theorem LOG10_2_hi_correctly_rounded : InCell (Real.logb 10 2 * 2 ^ 1074) consts.LOG10_2.hi.toInt :=
+  LOG10_2_correctly_rounded.hi
+theorem LOG10_2_lo_correctly_rounded :
+    InCell (Real.logb 10 2 * 2 ^ 1074 - (consts.LOG10_2.hi.toInt : ℝ)) consts.LOG10_2.lo.toInt :=
+  LOG10_2_correctly_rounded.lo
+
+theorem LOG10_2_rel_err : |Real.logb 10 2 - (consts.LOG10_2.V : ℝ) / 2 ^ 1074| ≤ |Real.logb 10 2| / 2 ^ 107 :=
+  LOG10_2_correctly_rounded.rel_err' (by decide +kernel)
+
+/-- `consts::LOG2_10` is the correctly rounded double-double of `log₂ 10 = log 10 / log 2` -/
+theorem LOG2_10_correctly_rounded : CorrectlyRoundedDD (Real.logb 2 10) consts.LOG2_10 :=
+  correctlyRounded_of_encl (u := 2 ^ 1023) (v := 2 ^ 969) log2_10_encl
+    (by decide +kernel) (by decide +kernel) (by decide +kernel) (by decide +kernel)
+    (by decide +kernel) (by decide +kernel) (by decide +kernel) (by decide +kernel)
+
+theorem LOG2_10_hi_correctly_rounded : InCell (Real.logb 2 10 * 2 ^ 1074) consts.LOG2_10.hi.toInt :=
+  LOG2_10_correctly_rounded.hi
+theorem LOG2_10_lo_correctly_rounded :
+    InCell (Real.logb 2 10 * 2 ^ 1074 - (consts.LOG2_10.hi.toInt : ℝ)) consts.LOG2_10.lo.toInt :=
+  LOG2_10_correctly_rounded.lo
+
+theorem LOG2_10_rel_err : |Real.logb 2 10 - (consts.LOG2_10.V : ℝ) / 2 ^ 1074| ≤ |Real.logb 2 10| / 2 ^ 107 :=
+  LOG2_10_correctly_rounded.rel_err' (by decide +kernel)
+
+/-! ### the `π` family: `π` is enclosed to 136 bits (`ConstBounds.pi_gt_136`, `pi_lt_136`), every multiple, the
+reciprocals and `2/√π` inherit rational enclosures, and each constant gets its own cell test -/
+
+/-- `consts::PI` is the correctly rounded double-double of `π` -/
+theorem PI_correctly_rounded : CorrectlyRoundedDD (Real.pi) consts.PI :=
+  correctlyRounded_of_encl (u := 2 ^ 1023) (v := 2 ^ 969) pi_encl
+    (by decide +kernel) (by decide +kernel) (by decide +kernel) (by decide +kernel)
+    (by decide +kernel) (by decide +kernel) (by decide +kernel) (by decide +kernel)
+
+theorem PI_hi_correctly_rounded : InCell (Real.pi * 2 ^ 1074) consts.PI.hi.toInt :=
+  PI_correctly_rounded.hi
+theorem PI_lo_correctly_rounded :
+    InCell (Real.pi * 2 ^ 1074 - (consts.PI.hi.toInt : ℝ)) consts.PI.lo.toInt :=
+  PI_correctly_rounded.lo
+
+theorem PI_rel_err : |Real.pi - (consts.PI.V : ℝ) / 2 ^ 1074| ≤ |Real.pi| / 2 ^ 107 :=
+  PI_correctly_rounded.rel_err' (by decide +kernel)
+
+/-- `consts::TAU` is the correctly rounded double-double of `2π` -/
+theorem TAU_correctly_rounded : CorrectlyRoundedDD (2 * Real.pi) consts.TAU :=
+  correctlyRounded_of_encl (u := 2 ^ 1024) (v := 2 ^ 970) tau_encl
+    (by decide +kernel) (by decide +kernel) (by decide +kernel) (by decide +kernel)
+    (by decide +kernel) (by decide +kernel) (by decide +kernel) (by decide +kernel)
+
+theorem TAU_hi_correctly_rounded : InCell (2 * Real.pi * 2 ^ 1074) consts.TAU.hi.toInt :=
+  TAU_correctly_rounded.hi
+theorem TAU_lo_correctly_rounded :
+    InCell (2 * Real.pi * 2 ^ 1074 - (consts.TAU.hi.toInt : ℝ)) consts.TAU.lo.toInt :=
+  TAU_correctly_rounded.lo
+
+theorem TAU_rel_err : |2 * Real.pi - (consts.TAU.V : ℝ) / 2 ^ 1074| ≤ |2 * Real.pi| / 2 ^ 107 :=
+  TAU_correctly_rounded.rel_err' (by decide +kernel)
+
+/-- `consts::FRAC_PI_2` is the correctly rounded double-double of `π/2` -/
+theorem FRAC_PI_2_correctly_rounded : CorrectlyRoundedDD (Real.pi / 2) consts.FRAC_PI_2 :=
+  correctlyRounded_of_encl (u := 2 ^ 1022) (v := 2 ^ 968) pi_div_2_encl
+    (by decide +kernel) (by decide +kernel) (by decide +kernel) (by decide +kernel)
+    (by decide +kernel) (by decide +kernel) (by decide +kernel) (by decide +kernel)
+
+theorem FRAC_PI_2_hi_correctly_rounded : InCell (Real.pi / 2 * 2 ^ 1074) consts.FRAC_PI_2.hi.toInt :=
+  FRAC_PI_2_correctly_rounded.hi
+theorem FRAC_PI_2_lo_correctly_rounded :
+    InCell (Real.pi / 2 * 2 ^ 1074 - (consts.FRAC_PI_2.hi.toInt : ℝ)) consts.FRAC_PI_2.lo.toInt :=
+  FRAC_PI_2_correctly_rounded.lo
+
+theorem FRAC_PI_2_rel_err : |Real.pi / 2 - (consts.FRAC_PI_2.V : ℝ) / 2 ^ 1074| ≤ |Real.pi / 2| / 2 ^ 107 :=
+  FRAC_PI_2_correctly_rounded.rel_err' (by decide +kernel)
+
+/-- `consts::FRAC_PI_3` is the correctly rounded double-double of `π/3` -/
+theorem FRAC_PI_3_correctly_rounded : CorrectlyRoundedDD (Real.pi / 3) consts.FRAC_PI_3 :=
+  correctlyRounded_of_encl (u := 2 ^ 1022) (v := 2 ^ 968) pi_div_3_encl
+    (by decide +kernel) (by decide +kernel) (by decide +kernel) (by decide +kernel)
+    (by decide +kernel) (by decide +kernel) (by decide +kernel) (by decide +kernel)
+
+theorem FRAC_PI_3_hi_correctly_rounded : InCell (Real.pi / 3 * 2 ^ 1074) consts.FRAC_PI_3.hi.toInt :=
+  FRAC_PI_3_correctly_rounded.hi
+theorem FRAC_PI_3_lo_correctly_rounded :
+    InCell (Real.pi / 3 * 2 ^ 1074 - (consts.FRAC_PI_3.hi.toInt : ℝ)) consts.FRAC_PI_3.lo.toInt :=
+  FRAC_PI_3_correctly_rounded.lo
+
+theorem FRAC_PI_3_rel_err : |Real.pi / 3 - (consts.FRAC_PI_3.V : ℝ) / 2 ^ 1074| ≤ |Real.pi / 3| / 2 ^ 107 :=
+  FRAC_PI_3_correctly_rounded.rel_err' (by decide +kernel)
+
+/-- `consts::FRAC_PI_4` is the correctly rounded double-double of `π/4` -/
+theorem FRAC_PI_4_correctly_rounded : CorrectlyRoundedDD (Real.pi / 4) consts.FRAC_PI_4 :=
+  correctlyRounded_of_encl (u := 2 ^ 1021) (v := 2 ^ 967) pi_div_4_encl
+    (by decide +kernel) (by decide +kernel) (by decide +kernel) (by decide +kernel)
+    (by decide +kernel) (by decide +kernel) (by decide +kernel) (by decide +kernel)
+
+theorem FRAC_PI_4_hi_correctly_rounded : InCell (Real.pi / 4 * 2 ^ 1074) consts.FRAC_PI_4.hi.toInt :=
+  FRAC_PI_4_correctly_rounded.hi
+theorem FRAC_PI_4_lo_correctly_rounded :
+    InCell (Real.pi / 4 * 2 ^ 1074 - (consts.FRAC_PI_4.hi.toInt : ℝ)) consts.FRAC_PI_4.lo.toInt :=
+  FRAC_PI_4_correctly_rounded.lo
+
+theorem FRAC_PI_4_rel_err : |Real.pi / 4 - (consts.FRAC_PI_4.V : ℝ) / 2 ^ 1074| ≤ |Real.pi / 4| / 2 ^ 107 :=
+  FRAC_PI_4_correctly_rounded.rel_err' (by decide +kernel)
+
+/-- `consts::FRAC_PI_6` is the correctly rounded double-double of `π/6` -/
+theorem FRAC_PI_6_correctly_rounded : CorrectlyRoundedDD (Real.pi / 6) consts.FRAC_PI_6 :=
+  correctlyRounded_of_encl (u := 2 ^ 1021) (v := 2 ^ 967) pi_div_6_encl
+    (by decide +kernel) (by decide +kernel) (by decide +kernel) (by decide +kernel)
+    (by decide +kernel) (by decide +kernel) (by decide +kernel) (by decide +kernel)
+
+theorem FRAC_PI_6_hi_correctly_rounded : InCell (Real.pi / 6 * 2 ^ 1074) consts.FRAC_PI_6.hi.toInt :=
+  FRAC_PI_6_correctly_rounded.hi
+theorem FRAC_PI_6_lo_correctly_rounded :
+    InCell (Real.pi / 6 * 2 ^ 1074 - (consts.FRAC_PI_6.hi.toInt : ℝ)) consts.FRAC_PI_6.lo.toInt :=
+  FRAC_PI_6_correctly_rounded.lo
+
+theorem FRAC_PI_6_rel_err : |Real.pi / 6 - (consts.FRAC_PI_6.V : ℝ) / 2 ^ 1074| ≤ |Real.pi / 6| / 2 ^ 107 :=
+  FRAC_PI_6_correctly_rounded.rel_err' (by decide +kernel)
+
+/-- `consts::FRAC_PI_8` is the correctly rounded double-double of `π/8` -/
+theorem FRAC_PI_8_correctly_rounded : CorrectlyRoundedDD (Real.pi / 8) consts.FRAC_PI_8 :=
+  correctlyRounded_of_encl (u := 2 ^ 1020) (v := 2 ^ 966) pi_div_8_encl
+    (by decide +kernel) (by decide +kernel) (by decide +kernel) (by decide +kernel)
+    (by decide +kernel) (by decide +kernel) (by decide +kernel) (by decide +kernel)
+
+theorem FRAC_PI_8_hi_correctly_rounded : InCell (Real.pi / 8 * 2 ^ 1074) consts.FRAC_PI_8.hi.toInt :=
+  FRAC_PI_8_correctly_rounded.hi
+theorem FRAC_PI_8_lo_correctly_rounded :
+    InCell (Real.pi / 8 * 2 ^ 1074 - (consts.FRAC_PI_8.hi.toInt : ℝ)) consts.FRAC_PI_8.lo.toInt :=
+  FRAC_PI_8_correctly_rounded.lo
+
+theorem FRAC_PI_8_rel_err : |Real.pi / 8 - (consts.FRAC_PI_8.V : ℝ) / 2 ^ 1074| ≤ |Real.pi / 8| / 2 ^ 107 :=
+  FRAC_PI_8_correctly_rounded.rel_err' (by decide +kernel)
+
+/-- `consts::FRAC_1_PI` is the correctly rounded double-double of `1/π` -/
+theorem FRAC_1_PI_correctly_rounded : CorrectlyRoundedDD (1 / Real.pi) consts.FRAC_1_PI :=
+  correctlyRounded_of_encl (u := 2 ^ 1020) (v := 2 ^ 966) one_div_pi_encl
+    (by decide +kernel) (by decide +kernel) (by decide +kernel) (by decide +kernel)
+    (by decide +kernel) (by decide +kernel) (by decide +kernel) (by decide +kernel)
+
+theorem FRAC_1_PI_hi_correctly_rounded : InCell (1 / Real.pi * 2 ^ 1074) consts.FRAC_1_PI.hi.toInt :=
+  FRAC_1_PI_correctly_rounded.hi
+theorem FRAC_1_PI_lo_correctly_rounded :
+    InCell (1 / Real.pi * 2 ^ 1074 - (consts.FRAC_1_PI.hi.toInt : ℝ)) consts.FRAC_1_PI.lo.toInt :=
+  FRAC_1_PI_correctly_rounded.lo
+
+theorem FRAC_1_PI_rel_err : |1 / Real.pi - (consts.FRAC_1_PI.V : ℝ) / 2 ^ 1074| ≤ |1 / Real.pi| / 2 ^ 107 :=
+  FRAC_1_PI_correctly_rounded.rel_err' (by decide +kernel)
+
+/-- `consts::FRAC_2_PI` is the correctly rounded double-double of `2/π` -/
+theorem FRAC_2_PI_correctly_rounded : CorrectlyRoundedDD (2 / Real.pi) consts.FRAC_2_PI :=
+  correctlyRounded_of_encl (u := 2 ^ 1021) (v := 2 ^ 967) two_div_pi_encl
+    (by decide +kernel) (by decide +kernel) (by decide +kernel) (by decide +kernel)
+    (by decide +kernel) (by decide +kernel) (by decide +kernel) (by decide +kernel)
+
+theorem FRAC_2_PI_hi_correctly_rounded : InCell (2 / Real.pi * 2 ^ 1074) consts.FRAC_2_PI.hi.toInt :=
+  FRAC_2_PI_correctly_rounded.hi
+theorem FRAC_2_PI_lo_correctly_rounded :
+    InCell (2 / Real.pi * 2 ^ 1074 - (consts.FRAC_2_PI.hi.toInt : ℝ)) consts.FRAC_2_PI.lo.toInt :=
+  FRAC_2_PI_correctly_rounded.lo
+
+theorem FRAC_2_PI_rel_err : |2 / Real.pi - (consts.FRAC_2_PI.V : ℝ) / 2 ^ 1074| ≤ |2 / Real.pi| / 2 ^ 107 :=
+  FRAC_2_PI_correctly_rounded.rel_err' (by decide +kernel)
+
+/-- `consts::FRAC_2_SQRT_PI` is the correctly rounded double-double of `2/√π` -/
+theorem FRAC_2_SQRT_PI_correctly_rounded : CorrectlyRoundedDD (2 / √Real.pi) consts.FRAC_2_SQRT_PI :=
+  correctlyRounded_of_encl (u := 2 ^ 1022) (v := 2 ^ 966) two_div_sqrt_pi_encl
+    (by decide +kernel) (by decide +kernel) (by decide +kernel) (by decide +kernel)
+    (by decide +kernel) (by decide +kernel) (by decide +kernel) (by decide +kernel)
+
+theorem FRAC_2_SQRT_PI_hi_correctly_rounded : InCell (2 / √Real.pi * 2 ^ 1074) consts.FRAC_2_SQRT_PI.hi.toInt :=
+  FRAC_2_SQRT_PI_correctly_rounded.hi
+theorem FRAC_2_SQRT_PI_lo_correctly_rounded :
+    InCell (2 / √Real.pi * 2 ^ 1074 - (consts.FRAC_2_SQRT_PI.hi.toInt : ℝ)) consts.FRAC_2_SQRT_PI.lo.toInt :=
+  FRAC_2_SQRT_PI_correctly_rounded.lo
+
+theorem FRAC_2_SQRT_PI_rel_err : |2 / √Real.pi - (consts.FRAC_2_SQRT_PI.V : ℝ) / 2 ^ 1074| ≤ |2 / √Real.pi| / 2 ^ 107 :=
+  FRAC_2_SQRT_PI_correctly_rounded.rel_err' (by decide +kernel)
+
+/-! ## 4. summary -/
+
+/-- **All 19 published constants are the correctly rounded double-doubles of the real numbers they name**:
+`hi = RN(c)` and `lo = RN(c − hi)` (each strictly inside its rounding cell, hence for every tie-breaking rule). -/
+theorem all_constants_correctly_rounded :
+    CorrectlyRoundedDD (Real.exp 1) consts.E ∧
+    CorrectlyRoundedDD (1 / Real.pi) consts.FRAC_1_PI ∧
+    CorrectlyRoundedDD (2 / Real.pi) consts.FRAC_2_PI ∧
+    CorrectlyRoundedDD (2 / √Real.pi) consts.FRAC_2_SQRT_PI ∧
+    CorrectlyRoundedDD (1 / √2) consts.FRAC_1_SQRT_2 ∧
+    CorrectlyRoundedDD (Real.pi / 2) consts.FRAC_PI_2 ∧
+    CorrectlyRoundedDD (Real.pi / 3) consts.FRAC_PI_3 ∧
+    CorrectlyRoundedDD (Real.pi / 4) consts.FRAC_PI_4 ∧
+    CorrectlyRoundedDD (Real.pi / 6) consts.FRAC_PI_6 ∧
+    CorrectlyRoundedDD (Real.pi / 8) consts.FRAC_PI_8 ∧
+    CorrectlyRoundedDD (Real.log 2) consts.LN_2 ∧
+    CorrectlyRoundedDD (Real.log 10) consts.LN_10 ∧
+    CorrectlyRoundedDD (Real.logb 2 (Real.exp 1)) consts.LOG2_E ∧
+    CorrectlyRoundedDD (Real.logb 10 (Real.exp 1)) consts.LOG10_E ∧
+    CorrectlyRoundedDD (Real.logb 10 2) consts.LOG10_2 ∧
+    CorrectlyRoundedDD (Real.logb 2 10) consts.LOG2_10 ∧
+    CorrectlyRoundedDD Real.pi consts.PI ∧
+    CorrectlyRoundedDD √2 consts.SQRT_2 ∧
+    CorrectlyRoundedDD (2 * Real.pi) consts.TAU :=
+  ⟨E_correctly_rounded, FRAC_1_PI_correctly_rounded, FRAC_2_PI_correctly_rounded,
+    FRAC_2_SQRT_PI_correctly_rounded, FRAC_1_SQRT_2_correctly_rounded, FRAC_PI_2_correctly_rounded,
+    FRAC_PI_3_correctly_rounded, FRAC_PI_4_correctly_rounded, FRAC_PI_6_correctly_rounded,
+    FRAC_PI_8_correctly_rounded, LN_2_correctly_rounded, LN_10_correctly_rounded, LOG2_E_correctly_rounded,
+    LOG10_E_correctly_rounded, LOG10_2_correctly_rounded, LOG2_10_correctly_rounded, PI_correctly_rounded,
+    SQRT_2_correctly_rounded, TAU_correctly_rounded⟩
+
+/-- what "correctly rounded" buys, for any constant: the high word is the *unique* nearest double to `c`
+(every other double is strictly farther), and likewise the low word for `c − hi` -/
+theorem CorrectlyRoundedDD_unique_nearest {c : ℝ} {t : TwoFloat} (h : CorrectlyRoundedDD c t) (hw : t.WF) :
+    (∀ y : ℤ, Rep y.natAbs → y ≠ t.hi.toInt → |c * 2 ^ 1074 - (t.hi.toInt : ℝ)| < |c * 2 ^ 1074 - (y : ℝ)|) ∧
+    (∀ y : ℤ, Rep y.natAbs → y ≠ t.lo.toInt →
+      |c * 2 ^ 1074 - (t.hi.toInt : ℝ) - (t.lo.toInt : ℝ)| < |c * 2 ^ 1074 - (t.hi.toInt : ℝ) - (y : ℝ)|) :=
+  ⟨fun _ hy hne => h.hi.lt_of_ne (rep_natAbs_toInt hw.1) hy hne,
+   fun _ hy hne => h.lo.lt_of_ne (rep_natAbs_toInt hw.2) hy hne⟩
+
 end C12x
